@@ -148,6 +148,15 @@ UnknownVals ==
     [b |-> <<72, 1, 107, 145, 90>>, refs |-> 1, defs |-> 0],                \* map {"k": 1}
     [b |-> <<74, 0, 0, 1, 93, 0, 0, 0, 0>>, refs |-> 0, defs |-> 0],        \* a date
     [b |-> <<34, 1, 2>>, refs |-> 0, defs |-> 0] }                          \* a binary
+(* ... and values whose types the receiver does not know either (a newer peer added a field of a type *)
+(* the older one never heard of): they depend on the state (the instance tag is the definition's index) *)
+UnkName == <<85, 110, 107>>                                  \* "Unk"
+UnknownTypedVals ==
+  { [b |-> <<113>> \o ShortStr(<<91>> \o UnkName) \o <<145>>, refs |-> 1, defs |-> 0, typs |-> << <<91>> \o UnkName >>],   \* typed list "[Unk" {1}
+    [b |-> <<77>> \o ShortStr(UnkName) \o <<145, 146, 90>>, refs |-> 1, defs |-> 0, typs |-> <<UnkName>>],               \* typed map "Unk" {1: 2}
+    [b |-> <<67>> \o ShortStr(UnkName) \o <<145>> \o ShortStr(<<120>>)                                                     \* C "Unk" 1 "x", instance, 1
+             \o (IF Len(cls) <= 15 THEN <<96 + Len(cls)>> ELSE <<79>> \o IntMin(Len(cls))) \o <<145>>,
+     refs |-> 1, defs |-> 1, typs |-> <<>>] }
 
 (* ---------------- Init / actions ---------------- *)
 Init == /\ vi \in 1..Len(Values)
@@ -252,9 +261,13 @@ EmitObject ==
 
 (* the value of an unknown wire field: may consume ordinals *)
 EmitUnknown == /\ todo # <<>> /\ Top.k = "unknown"
-               /\ \E u \in UnknownVals : out' = out \o u.b /\ nref' = nref + u.refs
+               /\ \/ (\E u \in UnknownVals : out' = out \o u.b /\ nref' = nref + u.refs) /\ UNCHANGED <<cls, typ>>
+                  \/ \E u \in UnknownTypedVals :
+                       /\ out' = out \o u.b /\ nref' = nref + u.refs
+                       /\ typ' = typ \o u.typs
+                       /\ cls' = cls \o [i \in 1..u.defs |-> [t |-> 0, order |-> <<>>]]
                /\ todo' = Pop
-               /\ UNCHANGED <<vi, cls, typ, bind, dropped, dev, done>>
+               /\ UNCHANGED <<vi, bind, dropped, dev, done>>
 
 (* type position: literal (appends to the type table) or back-reference *)
 TypeForms(name) ==
